@@ -52,6 +52,11 @@ pub mod codegen {
         pub id: usize,
         _p: PhantomData<(Ctx, F)>,
     }
+    impl<C, F> TypedFunc<C, F> {
+        pub fn with_id(id: usize) -> Self {
+            TypedFunc { id, _p: PhantomData }
+        }
+    }
     impl<C: OptCtx> TypedFunc<C, fn() -> Verdict<(), ()>> {
         pub fn call_tuple(&self, _ctx: &mut C::Ctx, _args: ()) -> Verdict<(), ()> {
             unsafe {
@@ -91,6 +96,28 @@ pub mod codegen {
         }
     }
 
+    /// U1: the real run_tests / TestCase against a shim get_tests (discovery is U2's subject)
+    pub mod testing_u1 {
+        use super::{Module, TypedFunc};
+        use crate::{runtime::OptCtx, value::Verdict};
+
+        /*@STRUCT_TESTCASE@*/
+
+        /*@IMPL_TESTCASE0@*/
+
+        /*@IMPL_TESTCASE1@*/
+
+        /// shim of get_tests: three test cases (function ids 2, 3, 0 - the sorted order U2 proves)
+        pub(crate) fn get_tests<Ctx: OptCtx>(module: &mut Module<Ctx>) -> impl Iterator<Item = TestCase<Ctx>> + use<'_, Ctx> {
+            [2usize, 3, 0].into_iter().map(|id| TestCase::new(String::new(), TypedFunc::with_id(id)))
+        }
+
+        /*@FN_RUN_TESTS@*/
+
+        include!("harness_u1.rs");
+    }
+
+    /// U2: the real get_tests (name filter, order, display names)
     pub mod testing {
         use super::{Module, TypedFunc};
         use crate::{runtime::OptCtx, value::Verdict};
@@ -103,7 +130,12 @@ pub mod codegen {
 
         /*@FN_GET_TESTS@*/
 
-        /*@FN_RUN_TESTS@*/
+        impl<C: OptCtx> TestCase<C> {
+            /// harness accessor: which function the discovered test case is bound to
+            pub fn func_id(&self) -> usize {
+                self.func.id
+            }
+        }
 
         include!("harness.rs");
     }
